@@ -56,11 +56,16 @@ def gen_family(rng, n_roots=(1, 3), n_cond=(2, 8), n_rdm=(1, 4)):
                              **({'roi_xyz': {'values': [[float(u), u * 2.0, 1.0] for u in ru], 'container': 'array'}} if xyz_r else {}),
                              'extra': {'values': ['x%d' % u for u in ru], 'container': rng.pick(['list', 'array'])}},
                 'pat_desc': pat_desc, 'nan_cells': [], 'order': rng.pick(['F', 'S', 'Q']) if rng.chance(0.3) else 'C'}
-        if fdtype != 'float64':
-            spec['dtype'] = fdtype
+        rdtype = fdtype
+        if fdtype == 'int64':
+            spec['enc2'] = True            # the whole family holds integral values ...
+            if rng.chance(0.4):
+                rdtype = 'float64'         # ... but not every stack of it is stored in an integer dtype
+        if rdtype != 'float64':
+            spec['dtype'] = rdtype
         if fneg:
             spec['neg'] = True
-        if rng.chance(0.25) and nc >= 4 and fdtype != 'int64':
+        if rng.chance(0.25) and nc >= 4 and rdtype != 'int64':
             i, j = sorted(rng.sample(range(nc), 2))
             spec['nan_cells'].append([rng.randrange(nr), i, j])
         roots.append(spec)
